@@ -25,6 +25,7 @@ the set hash function; the theorems hold for every `Env`.
 -/
 import CtyModel.Lemmas.StdlibCall
 import CtyModel.Lemmas.Asc
+import CtyModel.Lemmas.d13Model
 namespace CtyModel
 namespace C13
 open Stdlib Value
@@ -543,29 +544,198 @@ theorem setop_is_set_operation (E : Env) (ety : Ty) (k : SetOpKind) (ida idb : L
         (SetImpl.fromList (setRules E ety) (setIter E ety vb))))) :=
   setOpImpl_two E ety k ida idb va vb hs he hha hhb hka hkb
 
-/-- **set algebra = list-set algebra**: the members of the result represent exactly
-the union / intersection / difference / symmetric difference of the classes the
-members of the arguments represent — for `Equals`/`Hash` lawful on the element
-type (an equivalence relation that agrees with hashing: C03) -/
-theorem setop_members (E : Env) (ety : Ty) (k : SetOpKind) (ida idb : List Int) (va vb : List Payload)
-    (hR : (setRules E ety).Lawful)
-    (hs : ety.equals ety.stripOpt = true) (he : ety.equals ety = true)
-    (hha : ∀ p ∈ va, (E.hash ety p).isSome = true) (hhb : ∀ p ∈ vb, (E.hash ety p).isSome = true)
-    (hka : Payload.whollyKnownL va = true) (hkb : Payload.whollyKnownL vb = true) :
-    ∃ ids vs,
-      setOpImpl E k [⟨.set ety, .sset ida va⟩, ⟨.set ety, .sset idb vb⟩] (.set ety) = .ok ⟨.set ety, .sset ids vs⟩ ∧
-      ∀ y, Spec.memBy (setRules E ety).equiv vs y ↔
-        k.spec (Spec.memBy (setRules E ety).equiv va y) (Spec.memBy (setRules E ety).equiv vb y) :=
-  setOp_members E ety k ida idb va vb hR hs he hha hhb hka hkb
+/-! ### lawfulness of `setRules`, relative to a carrier
 
-/-- the result is laid out as a valid set value and holds no two equal members;
-its type is `set(ety)` -/
-theorem setop_result_wellformed (E : Env) (ety : Ty) (k : SetOpKind) (hR : (setRules E ety).Lawful)
-    (s1 s2 : SetImpl Payload) (hd : ety.equals .dyn = false) (sets : List (List Int × List Payload))
-    (hne : sets ≠ []) (hu : E.unify (sets.map fun _ => ety) = .ok (some ety)) :
-    SetImpl.Inv (setRules E ety) (k.run (setRules E ety) s1 s2) ∧
-    setOpType E (setArgs ety sets) = .ok (.set ety) :=
-  ⟨setOp_result_inv E ety k hR s1 s2, setOpType_same E ety hd sets hne hu⟩
+`Rules.Lawful` (the contract of `cty/set/rules.go` as C03 states it for a generic
+`Rules α`) asks the laws of EVERY `a : α`.  Over raw payloads that is false of
+cty's `setRules` — an unknown member is not `Equals`-true to itself, an ill-typed
+payload makes `Equals` panic — so a theorem assuming `(setRules E ety).Lawful`
+holds of nothing (audit C13 #1).  The laws are therefore asked on a CARRIER
+(`Rules.LawfulOn`, Lemmas/d13Carrier) and proved there (`setrules_lawful_on_members`). -/
+
+/-- **FULL STATEMENT (false)**: `setRules` meets the `cty/set` contract on all payloads. -/
+def SetRulesLawful : Prop := ∀ (E : Env) (ety : Ty), (setRules E ety).Lawful
+
+/-- an unknown string is not `Equivalent` to itself (`Equals` answers unknown, not true) -/
+theorem setRulesLawful_counterexample (E : Env) :
+    (setRules E .string).equiv (.unk .unref) (.unk .unref) = false := by
+  simp only [setRules]; decide
+
+theorem setRulesLawful_false : ¬ SetRulesLawful := fun h =>
+  absurd ((h {} .string).refl (.unk .unref)) (by rw [setRulesLawful_counterexample]; decide)
+
+/-- **…what holds: `setRules E ety` is lawful on admitted members.**  For a well-formed
+plain element type (no set, no capsule inside), `Equivalent` — "`Equals` answers
+known true" — is reflexive, symmetric and transitive, and equivalent members hash
+alike, on the members that are well-formed, wholly known, mark-free, whose numbers
+come from a hash-coherent list (`HashCoherentNums`, a decidable check; C03) and whose
+hash the environment answers as the hash model computes it. -/
+theorem setrules_lawful_on_members (E : Env) (ety : Ty) (ns : List Num) (hw : ety.wf = true)
+    (hp : ety.plain = true) (hc : HashCoherentNums ns = true) :
+    (setRules E ety).LawfulOn (fun p => p.member ety ns = true ∧ E.hashAgrees ety p) :=
+  setRules_lawfulOn E ety ns hw hp hc
+
+/-- on admitted members `Equivalent` is the structural `RawEquals` (`rawB`, the L2
+specification of C03) -/
+theorem setrules_equiv_is_rawEquals (E : Env) (ety : Ty) (ns : List Num) (hw : ety.wf = true)
+    (hp : ety.plain = true) (a b : Payload) (ha : a.member ety ns = true) (hb : b.member ety ns = true) :
+    (setRules E ety).equiv a b = rawB ety a b :=
+  setRules_equiv_eq E hw hp ha hb
+
+/-- `modelEnv` — the environment the correspondence op `std.callm` runs, whose hash is the
+hash model — answers the hash of every member the hash model can hash -/
+theorem modelEnv_hash_agrees (ety : Ty) (p : Payload) (h : (Value.hash ⟨ety, p⟩).isOk = true) :
+    modelEnv.hashAgrees ety p := modelEnv_hashAgrees ety p h
+
+/-- **set algebra = list-set algebra** (clause "set union / intersection / subtraction /
+symmetric difference return what the reference returns").  For two known sets of one
+well-formed plain element type without optional attributes whose members are admitted
+and hashed by the environment as the hash model hashes them, the call succeeds with a
+set of that type
+* laid out under the representation invariant of `cty/set` (ascending buckets, every
+  member in the bucket of its hash, no two `Equals` members),
+* whose members are, literally, members of the arguments,
+* in which EVERY admitted probe `y` (hashed or not) is represented iff it is
+  represented in the union / intersection / difference / symmetric difference of the
+  arguments. -/
+theorem setop_members (E : Env) (ety : Ty) (ns : List Num) (k : SetOpKind) (ida idb : List Int)
+    (va vb : List Payload)
+    (hw : ety.wf = true) (hp : ety.plain = true) (ho : ety.hasOpt = false) (hc : HashCoherentNums ns = true)
+    (hma : ∀ p ∈ va, p.member ety ns = true) (hmb : ∀ p ∈ vb, p.member ety ns = true)
+    (hha : ∀ p ∈ va, E.hashAgrees ety p) (hhb : ∀ p ∈ vb, E.hashAgrees ety p) :
+    ∃ s : SetImpl Payload,
+      setOpImpl E k [⟨.set ety, .sset ida va⟩, ⟨.set ety, .sset idb vb⟩] (.set ety) = .ok (ofSetImpl ety s) ∧
+      SetImpl.Inv (setRules E ety) s ∧
+      (∀ m ∈ SetImpl.values s, m ∈ va ∨ m ∈ vb) ∧
+      ∀ y, y.member ety ns = true →
+        (Spec.memBy (setRules E ety).equiv (SetImpl.values s) y ↔
+          k.spec (Spec.memBy (setRules E ety).equiv va y) (Spec.memBy (setRules E ety).equiv vb y)) :=
+  setOp_members_carrier E ety ns k ida idb va vb hw hp ho hc hma hmb hha hhb
+
+/-- **…at the instance the correspondence runs** (`std.callm`): under `modelEnv` the only
+thing asked of the hash is that the hash model answers (a decidable check per member) -/
+theorem setop_members_model (ety : Ty) (ns : List Num) (k : SetOpKind) (ida idb : List Int)
+    (va vb : List Payload)
+    (hw : ety.wf = true) (hp : ety.plain = true) (ho : ety.hasOpt = false) (hc : HashCoherentNums ns = true)
+    (hma : ∀ p ∈ va, p.member ety ns = true) (hmb : ∀ p ∈ vb, p.member ety ns = true)
+    (hha : ∀ p ∈ va, (Value.hash ⟨ety, p⟩).isOk = true) (hhb : ∀ p ∈ vb, (Value.hash ⟨ety, p⟩).isOk = true) :
+    ∃ s : SetImpl Payload,
+      setOpImpl modelEnv k [⟨.set ety, .sset ida va⟩, ⟨.set ety, .sset idb vb⟩] (.set ety) = .ok (ofSetImpl ety s) ∧
+      SetImpl.Inv (setRules modelEnv ety) s ∧
+      (∀ m ∈ SetImpl.values s, m ∈ va ∨ m ∈ vb) ∧
+      ∀ y, y.member ety ns = true →
+        (Spec.memBy (rawB ety) (SetImpl.values s) y ↔
+          k.spec (Spec.memBy (rawB ety) va y) (Spec.memBy (rawB ety) vb y)) := by
+  obtain ⟨s, h1, h2, h3, h4⟩ := setOp_members_carrier modelEnv ety ns k ida idb va vb hw hp ho hc hma hmb
+    (fun p h => modelEnv_hashAgrees ety p (hha p h)) (fun p h => modelEnv_hashAgrees ety p (hhb p h))
+  refine ⟨s, h1, h2, h3, fun y hy => ?_⟩
+  have hms : ∀ m ∈ SetImpl.values s, m.member ety ns = true := fun m hm => by
+    rcases h3 m hm with h | h
+    · exact hma m h
+    · exact hmb m h
+  have conv : ∀ l : List Payload, (∀ z ∈ l, z.member ety ns = true) →
+      (Spec.memBy (setRules modelEnv ety).equiv l y ↔ Spec.memBy (rawB ety) l y) := by
+    intro l hl
+    constructor
+    · rintro ⟨z, hz, he⟩; exact ⟨z, hz, by rw [← setRules_equiv_eq modelEnv hw hp hy (hl z hz)]; exact he⟩
+    · rintro ⟨z, hz, he⟩; exact ⟨z, hz, by rw [setRules_equiv_eq modelEnv hw hp hy (hl z hz)]; exact he⟩
+  rw [← conv _ hms, h4 y hy]
+  exact k.spec_congr (conv va hma) (conv vb hmb)
+
+/-- **FULL STATEMENT (false of the code)**: the same for ALL wholly known well-formed
+members, without the hash-coherence side condition on their numbers. -/
+def SetAlgebraOnAllKnownMembers : Prop :=
+  ∀ (ety : Ty) (k : SetOpKind) (ida idb : List Int) (va vb : List Payload) (s : SetImpl Payload),
+    ety.wf = true → ety.plain = true → ety.hasOpt = false →
+    (∀ p ∈ va ++ vb, p.shaped ety = true ∧ p.whollyKnown = true ∧ p.containsMarked = false ∧
+      (Value.hash ⟨ety, p⟩).isOk = true) →
+    setOpImpl modelEnv k [⟨.set ety, .sset ida va⟩, ⟨.set ety, .sset idb vb⟩] (.set ety) = .ok (ofSetImpl ety s) →
+    ∀ y ∈ va ++ vb, (Spec.memBy (setRules modelEnv ety).equiv (SetImpl.values s) y ↔
+      k.spec (Spec.memBy (setRules modelEnv ety).equiv va y) (Spec.memBy (setRules modelEnv ety).equiv vb y))
+
+/-- witness (replayed on /repo: `stdlib.SetIntersection(SetVal{float64 3.9477794105},
+SetVal{parse "3.9477794105"})` is the empty set although the two numbers are `Equals`):
+the two members are `Equivalent` but live in different hash buckets, so `Has` misses.
+Root cause: the C03 hash-coherence finding (`C03.hash_incoherent_counterexample`). -/
+theorem setAlgebraOnAllKnownMembers_counterexample :
+    setOpImpl modelEnv .intersection
+      [⟨.set .number, .sset [1243578146] [.n C03.w4f]⟩, ⟨.set .number, .sset [1459007788] [.n C03.w4p]⟩]
+      (.set .number) = .ok (ofSetImpl .number ⟨[]⟩) ∧
+    (setRules modelEnv .number).equiv (.n C03.w4f) (.n C03.w4p) = true ∧
+    (setRules modelEnv .number).equiv (.n C03.w4f) (.n C03.w4f) = true ∧
+    (Value.hash ⟨.number, .n C03.w4f⟩).isOk = true ∧ (Value.hash ⟨.number, .n C03.w4p⟩).isOk = true := by
+  decide +kernel
+
+theorem setAlgebraOnAllKnownMembers_false : ¬ SetAlgebraOnAllKnownMembers := by
+  intro h
+  obtain ⟨h1, h2, h2', h3, h4⟩ := setAlgebraOnAllKnownMembers_counterexample
+  have hiff := h .number .intersection [1243578146] [1459007788] [.n C03.w4f] [.n C03.w4p] ⟨[]⟩ rfl rfl rfl
+    (by
+      intro p hp
+      simp only [List.cons_append, List.nil_append, List.mem_cons, List.not_mem_nil, or_false] at hp
+      rcases hp with rfl | rfl
+      · exact ⟨rfl, rfl, rfl, h3⟩
+      · exact ⟨rfl, rfl, rfl, h4⟩)
+    h1 (.n C03.w4f) (by simp)
+  have hr : SetOpKind.intersection.spec
+      (Spec.memBy (setRules modelEnv .number).equiv [.n C03.w4f] (.n C03.w4f))
+      (Spec.memBy (setRules modelEnv .number).equiv [.n C03.w4p] (.n C03.w4f)) :=
+    ⟨⟨.n C03.w4f, by simp, h2'⟩, ⟨.n C03.w4p, by simp, h2⟩⟩
+  obtain ⟨z, hz, _⟩ := hiff.mpr hr
+  simp [SetImpl.values] at hz
+
+/-- **sethaselement = membership** (clause "set membership"): for a known set of
+admitted members filed under their hashes (the layout `cty.SetVal` and the set
+algebra produce — `setop_result_is_filed`) and an admitted needle of the element
+type, the answer is `true` iff some member is `RawEquals` to the needle. -/
+theorem sethaselement_membership (E : Env) (ety : Ty) (ns : List Num) (hw : ety.wf = true) (hp : ety.plain = true)
+    (hc : HashCoherentNums ns = true) (ids : List Int) (vs : List Payload) (q : Payload) (retTy : Ty)
+    (hf : FiledUnder E ety ids vs)
+    (hm : ∀ p ∈ vs, p.member ety ns = true) (hh : ∀ p ∈ vs, E.hashAgrees ety p)
+    (hq : q.member ety ns = true) (hhq : E.hashAgrees ety q) :
+    setHasElementImpl E [⟨.set ety, .sset ids vs⟩, ⟨ety, q⟩] retTy =
+      .ok (boolVal (vs.any fun m => rawB ety q m)) :=
+  setHasElementImpl_member E ety ns hw hp hc ids vs q retTy hf hm hh hq hhq
+
+/-- a set value flattened from a representation under the invariant files every member
+under its hash -/
+theorem setop_result_is_filed (E : Env) (ety : Ty) (s : SetImpl Payload) (hinv : SetImpl.Inv (setRules E ety) s)
+    (hs : ∀ m ∈ SetImpl.values s, (E.hash ety m).isSome = true) :
+    FiledUnder E ety (bucketIds s.buckets) (bucketVals s.buckets) ∧
+    ofSetImpl ety s = ⟨.set ety, .sset (bucketIds s.buckets) (bucketVals s.buckets)⟩ :=
+  ⟨filedUnder_ofSetImpl E ety s hinv hs, rfl⟩
+
+/-- **the set functions compose**: `sethaselement(setop(a, b), q)` is the union /
+intersection / difference / symmetric difference of what a plain `RawEquals` scan of
+the two member lists answers for `q`. -/
+theorem sethaselement_of_setop (E : Env) (ety : Ty) (ns : List Num) (k : SetOpKind) (ida idb : List Int)
+    (va vb : List Payload)
+    (hw : ety.wf = true) (hp : ety.plain = true) (ho : ety.hasOpt = false) (hc : HashCoherentNums ns = true)
+    (hma : ∀ p ∈ va, p.member ety ns = true) (hmb : ∀ p ∈ vb, p.member ety ns = true)
+    (hha : ∀ p ∈ va, E.hashAgrees ety p) (hhb : ∀ p ∈ vb, E.hashAgrees ety p)
+    (q : Payload) (hq : q.member ety ns = true) (hhq : E.hashAgrees ety q) (retTy : Ty) :
+    ∃ r b, setOpImpl E k [⟨.set ety, .sset ida va⟩, ⟨.set ety, .sset idb vb⟩] (.set ety) = .ok r ∧
+      setHasElementImpl E [r, ⟨ety, q⟩] retTy = .ok (boolVal b) ∧
+      (b = true ↔ k.spec ((va.any fun m => rawB ety q m) = true) ((vb.any fun m => rawB ety q m) = true)) :=
+  setHasElement_of_setOp E ety ns k ida idb va vb hw hp ho hc hma hmb hha hhb q hq hhq retTy
+
+/-- result type of the set algebra: `set(ety)` when all arguments are sets of `ety` —
+for any environment whose `UnifyUnsafe` answers `ety` for copies of `ety` (C09
+`unify_equal_types`), and outright for `modelEnv`, whose `unify` is the unification
+model (nesting depth of `ety` below its fuel, 48) -/
+theorem setop_result_wellformed (E : Env) (ety : Ty) (hd : ety.equals .dyn = false)
+    (sets : List (List Int × List Payload)) (hne : sets ≠ []) :
+    (E.unify (sets.map fun _ => ety) = .ok (some ety) → setOpType E (setArgs ety sets) = .ok (.set ety)) ∧
+    (ety.wf = true → ety.hasOpt = false → Unify.tyDepth ety < 48 →
+      setOpType modelEnv (setArgs ety sets) = .ok (.set ety)) := by
+  refine ⟨fun hu => setOpType_same E ety hd sets hne hu, fun hw ho hdp => ?_⟩
+  apply setOpType_same modelEnv ety hd sets hne
+  have : (sets.map fun _ => ety) = List.replicate sets.length ety := by
+    clear hne; induction sets with
+    | nil => rfl
+    | cons _ _ ih => simp [List.replicate_succ, ih]
+  rw [this]
+  exact modelEnv_unify_same ety sets.length (by cases sets <;> simp_all) hw ho hdp
 
 /-- **a dynamically-typed argument gives `cty.DynamicVal`** (the parameters declare
 `AllowDynamicType`, so `cty.DynamicVal` reaches the callbacks): `setOperationReturnType`
@@ -700,6 +870,31 @@ example : (flatElem (.tuple [.list .string, .number]) (.seq [.seq [.s "a", .s "b
 example : Ty.conformErrs (.list .string) (.list .string) = 0 := by decide
 example : (⟨.set .number, .marked ["m"] (.sset [1, 2] [.n (Num.ofInt 1), .unk .unref])⟩ : Value).unmark.whollyKnown = false := by
   decide
+
+/-- the hypotheses of the set theorems hold together for a non-trivial instance: the
+sets {2, 3, 1} and {2, 5} of 64-bit integers under `modelEnv`; likewise sets of tuples -/
+example : ∃ s : SetImpl Payload,
+    setOpImpl modelEnv .symmetricDifference
+      [⟨.set .number, .sset [450215437, 1842515611, 2212294583]
+          [.n (Num.ofInt 2 64), .n (Num.ofInt 3 64), .n (Num.ofInt 1 64)]⟩,
+       ⟨.set .number, .sset [450215437, 2226203566] [.n (Num.ofInt 2 64), .n (Num.ofInt 5 64)]⟩]
+      (.set .number) = .ok (ofSetImpl .number s) ∧ SetImpl.Inv (setRules modelEnv .number) s :=
+  have ⟨s, h1, h2, _⟩ := setop_members_model .number
+    [Num.ofInt 1 64, Num.ofInt 2 64, Num.ofInt 3 64, Num.ofInt 5 64] .symmetricDifference
+    [450215437, 1842515611, 2212294583] [450215437, 2226203566]
+    [.n (Num.ofInt 2 64), .n (Num.ofInt 3 64), .n (Num.ofInt 1 64)] [.n (Num.ofInt 2 64), .n (Num.ofInt 5 64)]
+    rfl rfl rfl (by decide +kernel) (by decide +kernel) (by decide +kernel) (by decide +kernel) (by decide +kernel)
+  ⟨s, h1, h2⟩
+example : HashCoherentNums [Num.ofInt 1 64, Num.ofInt 2 64, .fin false 1 (-1) 53, .fin false 3 (-2) 512] = true := by
+  decide +kernel
+example : Payload.member (.tuple [.number, .string]) [Num.ofInt 1 64]
+    (.seq [.n (Num.ofInt 1 64), .s "a"]) = true ∧
+    (Value.hash ⟨.tuple [.number, .string], .seq [.n (Num.ofInt 1 64), .s "a"]⟩).isOk = true := by decide +kernel
+example : FiledUnder modelEnv .number [450215437, 2226203566] [.n (Num.ofInt 2 64), .n (Num.ofInt 5 64)] :=
+  .cons (by decide +kernel) (.cons (by decide +kernel) .nil)
+example : (setHasElementImpl modelEnv
+    [⟨.set .number, .sset [450215437, 2226203566] [.n (Num.ofInt 2 64), .n (Num.ofInt 5 64)]⟩,
+     ⟨.number, .n (Num.ofInt 5 64)⟩] .bool) = .ok (boolVal true) := by decide +kernel
 
 end C13
 end CtyModel
